@@ -277,15 +277,19 @@ def run_multistep(res: Result):
                                                                 else "returned")},
                                   {"op": "logout", "reply": reply_bytes(st, code, text, how),
                                    "outcome": repr(out)[:200]})
-    # connect: fault at greeting and at authentication
-    for step in ("greeting", "auth-verdict"):
+    # connect: fault at greeting and at authentication, for every mechanism (the verdict of a
+    # multi-step exchange is its LAST reply: after the DIGEST-MD5 rspauth, after LOGIN's
+    # second answer)
+    for step, mech in [("greeting", "PLAIN")] + [("auth-verdict", m) for m in
+                                                 ("PLAIN", "LOGIN", "DIGEST-MD5", "OAUTHBEARER")]:
         for f in ("NO", "BYE"):
-            srv = ms.Server(users={b"user": b"pw"}, faults={step: f})
+            srv = ms.Server(users={b"user": b"pw"}, faults={step: f}, sasl=[mech])
             sess = mslab.Session(srv)
-            out = sess.connect("user", "pw")
+            out = sess.call("connect", "user", "pw", authmech=mech)
+            res.observe("connect-refused-under-mechanism", mech)
             res.count("cases")
             res.count("status:" + f)
-            res.case("connect/%s/%s" % (step, f))
+            res.case("connect/%s/%s/%s" % (step, f, mech))
             ok = (out[0] == "exc" and out[1] == "Error") if f == "BYE" else \
                 (out == ("ret", False) or (out[0] == "exc" and out[1] == "Error"))
             res.monitor("status-mirror", not ok)
